@@ -75,6 +75,12 @@ template<class T> void prims(vf::Runner& R, int U) {
       e -= k; if (!(e == r)) c.fail("prims|shift-=", in + ": got " + rs(e));
       Range<T> g = f - k; if (!(g == r)) c.fail("prims|operator-", in);
       if (!(r.begin() == (T)rb && r.end() == (T)re)) c.fail("prims|operator+ mutated receiver", in);
+      // downward shift first (seeded C20-11): for an unsigned type the shift may pass below zero, where the two end points move by
+      // modular arithmetic; the length (end - begin in the same arithmetic) is still preserved and the opposite shift restores the range
+      Range<T> d(r); d -= k;
+      if (d.length() != r.length()) c.fail("prims|shift-=-first-length", in + ": got " + rs(d) + " length " + str(d.length()));
+      Range<T> d2 = r - k; if (!(d2.begin() == d.begin() && d2.end() == d.end())) c.fail("prims|operator--first", in + ": got " + rs(d2));
+      d += k; if (!(d.begin() == (T)rb && d.end() == (T)re)) c.fail("prims|shift-=-then-+=", in + ": got " + rs(d));
     }
     // copies are independent
     {
